@@ -12,10 +12,11 @@ PLANS = {
     # (profile, MaxOps) exhaustive; (profile, MaxOps, n) = n simulated behaviours (random deep filters)
     "quick": [("logic", 1), ("arith", 1), ("strings", 1), ("misc", 1), ("math", 1), ("temporal", 1), ("long", 0), ("logic", 7, 1500), ("logic", 3, 600),
               ("arith", 5, 150), ("strings", 4, 150)],
-    # measured sizes (sqlite): logic 3 = 412 k filters, arith 2 = 110 k, strings 2 = 114 k, math 2 = 95 k; misc 2 and temporal 2
-    # exceed 1.4 M and are sampled by simulation instead
-    "thorough": [("logic", 3), ("arith", 2), ("strings", 2), ("misc", 1), ("math", 2), ("temporal", 1), ("long", 1),
-                 ("logic", 8, 6000), ("arith", 6, 3000), ("strings", 5, 3000), ("misc", 4, 6000), ("temporal", 4, 6000)],
+    # measured sizes (sqlite, after the atoms added in rounds 7-9): logic 2 = 96 k filters (logic 3 no longer finishes in 20 min
+    # of TLC time and is sampled), arith 2 = 101 k, strings 2 = 243 k, math 2 = 184 k; misc 2 and temporal 2 exceed 1.4 M and are
+    # sampled by simulation instead
+    "thorough": [("logic", 2), ("arith", 2), ("strings", 2), ("misc", 1), ("math", 2), ("temporal", 1), ("long", 1),
+                 ("logic", 8, 6000), ("logic", 4, 12000), ("arith", 6, 3000), ("strings", 5, 3000), ("misc", 4, 6000), ("temporal", 4, 6000)],
     # the ORM round trip costs 2-5 ms per query: smaller exhaustive bounds, same simulated depth
     "quick-orm": [("logic", 1), ("arith", 1), ("strings", 1), ("misc", 1), ("math", 1), ("temporal", 1), ("long", 0), ("logic", 7, 700), ("arith", 5, 150), ("strings", 4, 150)],
     "thorough-orm": [("logic", 2), ("arith", 1), ("strings", 1), ("misc", 1), ("math", 1), ("temporal", 1), ("long", 1),
